@@ -27,7 +27,8 @@ MANIFEST = dict(
          "FileSet.copy is called once per distinct file-set of the field (memo lemma); nothing that existed is altered. "
          "C34_total / C34_full — with the model of fileformats' algorithm, existing files and realisable modes, "
          "whatever the job directory already holds, staging never fails (this needed the repairs 74546108 and 53c1d5b2: "
-         "one clash set shared by the fields, seeded with the directory's entries). "
+         "one clash set shared by the fields, seeded with the directory's entries); C34_save_safe — no staged file bears "
+         "a name the engine writes into the job directory later (`_result.pklz`, ...; repair), that write touches nothing else. "
          "Tie: Job.inputs of generated tasks is run on real temp files for every FileSet.CopyMode value and collation, "
          "inodes/paths/contents are observed before, after, and after modifying the originals in place, and the model and "
          "the executable spec are evaluated on the same cases inside Coq.",
@@ -152,6 +153,10 @@ Definition spec_ok (c : case_t) : bool :=
               else existsb (fun w => negb (way_eqb w Sym) && allowed w (fd_mode fd) && mount_ok_b tab dest w s
                                      && behaves_b w dest (strip c0) c2 s d) ways)
              (pairs_of (fd_value fd) (fst o))) (combine fields outs')
+      (* no staged file bears a name the engine itself writes into the job directory *)
+      && forallb (fun o => forallb (fun d => negb (String.eqb (fst (snd d)) dest)
+                                             || negb (existsb (String.eqb (snd (snd d))) reserved_names))
+                                   (leaves (fst o))) outs'
   | OErr _ => negb (ready_b tab dest c0 fields)
   end.
 """
@@ -331,6 +336,9 @@ def run(ctx):
     out = Outcome(evaluations=len(metas), distinct_nontrivial=nontrivial, rule=RULE,
                   samples=[{k: m.get(k) for k in ("fields", "table", "result", "outputs")} for m in metas if m.get("nontrivial")][:4],
                   distribution=dist, traces_validated=len(metas))
+    rf = base.reserved_names_failure()
+    if rf is not None:
+        out.failures.append(rf)
     spec_bad = set(res["spec"])
     for i in sorted(spec_bad)[:30]:
         m = metas[i]
